@@ -176,7 +176,10 @@ func (g *c09Gen) genMisc() {
 	adecl := "type T1@ struct{ V1 int }\nfunc (t T1@) M() int { return 200 + t.V1 }\n" +
 		"type T0@ struct {\nV0 int\nT1@\n}\nfunc (t *T0@) P() int { return 1000 + t.V0 }\n" +
 		"type N@ uint16\nfunc (n N@) String() string { return \"N\" }\n"
-	srcs := []struct{ name, expr string; compiled bool }{
+	srcs := []struct {
+		name, expr string
+		compiled   bool
+	}{
 		{"T0", "T0@{1, T1@{2}}", false},
 		{"*T0", "&T0@{1, T1@{2}}", false},
 		{"T1", "T1@{2}", false},
@@ -189,7 +192,10 @@ func (g *c09Gen) genMisc() {
 		{"error", "errors.New(\"e\")", true},
 		{"[]int", "[]int{1}", true},
 	}
-	tgts := []struct{ name, typ string; iface bool }{
+	tgts := []struct {
+		name, typ string
+		iface     bool
+	}{
 		{"T0", "T0@", false}, {"*T0", "*T0@", false}, {"T1", "T1@", false}, {"N", "N@", false}, {"int", "int", false}, {"string", "string", false},
 		{"[]int", "[]int", false}, {"Duration", "time.Duration", false},
 		{"error", "error", true}, {"Stringer", "fmt.Stringer", true}, {"empty-interface", "interface{}", true},
